@@ -492,6 +492,18 @@ def gen_case(rng, index, tier):
                         ht, nm, world.trashinfo_text('/old/' + spec.pct_encode(
                             nm.encode()), '2001-01-01T00:00:00'),
                         [{'p': '', 't': 'f', 'c': 'old payload %d' % index}]))
+    dirs_ = [a for a in args if a.get('kind') in ('tree', 'dir_empty') and
+             a.get('class') in ('rel', 'abs', 'dotslash', 'trail1', 'abs_trail')]
+    if dirs_ and rng.random() < 0.04:
+        # the trash directory to use lies INSIDE the directory to be trashed:
+        # the move is impossible (EINVAL), the argument must stay as it is
+        # and nothing may be left behind in that trash directory
+        a_in = rng.choice(dirs_)
+        inner = a_in['rel'] + '/' + rng.choice(['T', '.Trash-inside', 'my trash'])
+        L.add(world.ensure_trash_dirs(inner))
+        opts = ['--trash-dir', '@/' + inner]
+        optclass = '--trash-dir-inside-argument'
+        stdin = ''
     add_stale(L, rng, args, index)
     add_partial_trash_dirs(L, rng)
     perm = add_hostile_permissions(L, rng, args) if rng.random() < 0.06 else None
@@ -505,7 +517,7 @@ def gen_case(rng, index, tier):
     case['opts'] = opts
     case['stdin'] = stdin
     case['optclass'] = optclass
-    if index % 12 == 5:
+    if index % 12 == 5 and optclass != '--trash-dir-inside-argument':
         case['interrupts'] = 3
     if any(not a['spelling'] for a in args):
         return None
